@@ -17,6 +17,7 @@ import CassisModel.Model.Json
 import CassisModel.Model.TsXml
 import CassisModel.Model.Comparable
 import CassisModel.Spec.RoundTripCheck
+import CassisModel.Spec.RoundTripCollCheck
 import CassisModel.Gen.Builtins
 import CassisModel.Spec.BuiltinChecks
 
@@ -694,7 +695,9 @@ def runOp (j : Json) : M Json := do
     let (ci, _) ← getHandle (← liftP (fldNat j "h"))
     let (_, ts) ← casTsOf ci
     let w ← get
-    pure (jOk (Json.bool (Xmi.rtAppliesB K ts w.cass.toList ci w.heap)))
+    -- "coll": the theorem for the whole format (C01RoundTripColl / C01AppliesColl: `collAppliesB_sound`)
+    pure (jOk (Json.mkObj [("flat", Json.bool (Xmi.rtAppliesB K ts w.cass.toList ci w.heap)),
+                           ("coll", Json.bool (Xmi.collAppliesB K ts w.cass.toList ci w.heap))]))
   | "cas.new" =>
     let ti ← liftP (fldNat j "ts")
     let _ ← getTs ti
